@@ -29,11 +29,12 @@ CLAIMS = {
          "key / range (inclusive and exclusive ends exactly on a key, both directions) / limit / descending / count-reduce variants) and compares them after every step of every TLC-generated behaviour with the incrementally maintained index - queried before and after writes to other collections, every step and every third step - and at the end of each behaviour with a freshly built one; behaviours of RosmarView itself (queries, non-stale and stale=ok, placed by the model; caller-chosen CAS around the marks; purges; design-document replacements) are replayed with the clock standing still and validated by ViewTrace"),
  "C19": ("seq", "SeqTrace compares, after every step, five SQL queries over $_keyspace (all rows with id/body/xattrs; filter on a body property; filter on an xattr property; documents without xattrs; a projection whose first column is NULL for some rows) with the specification's live documents of that collection, on in-memory (pre-recorded iterator) and on-disk (streaming iterator) buckets"),
  "C13": ("life", "RosmarLife (registry, handles, stores, collections, feeds) is model-checked by TLC (CountEqualsOpenHandles, DiskRegisteredIffOpen, OpenHandleHasStore, DiskDataSurvivesClose, OtherHandlesUnaffectedByClose); "
-         "TLC-simulated action lists (open in every mode / close / close again / CloseAndDelete / write / drop over 4 handles, 2 names, 3 URLs, 3 collections, starting from 15 directed prefixes) are executed on the real code and LifeTrace validates, after every action, each call's result class, what every handle can read, the registry and the data on disk"),
+         "TLC-simulated action lists (open in every mode / close / close again / CloseAndDelete / write / drop over 4 handles, 2 names, 4 URLs (plain in-memory, in-memory with the path of another bucket's directory, two on-disk), 4 collections, starting from some 30 directed prefixes) are executed on the real code and LifeTrace validates, after every action, each call's result class, what every handle can read, the registry and the data on disk"),
  "C14": ("exp", "RosmarExpiry is model-checked by TLC (TimerCoversEarliest, ExpiredSoon; witness: without Touch arming the timer the invariant fails); TLC-simulated scripts that set, shorten, lengthen, preserve and clear deadlines 2-4 s ahead "
          "are executed on in-memory and on-disk buckets (incl. reopen, drop-and-re-create of the collection, buckets whose expiry machinery has already run); ExpTrace validates the expiry in force and the timer's state after every call and the real-time timeline (readable before T, tombstone and deletion event within 4 s after T)"),
  "C16": ("life", "RosmarLife's feed part is model-checked by TLC (RunningFeedHasOpenStore, DoneIffEnded, FeedsEndOnlyForAReason); the same executed action lists (live / dump / multi-collection / bucket-level feeds started through any handle, "
-         "terminator closes, drops, closes, deletion, writes) are validated by LifeTrace: exactly one callback per write for every feed that should be running, none after the end, done channel closed iff ended, feed goroutine count"),
+         "terminator closes, drops, closes, deletion, writes) are validated by LifeTrace: exactly one callback per write for every feed that should be running, none after the end, done channel closed iff ended, feed goroutine count; through handles of a bucket deleted elsewhere too. The expiry scripts (ExpTrace) additionally require that the feed watching a collection - "
+         "also one dropped and re-created after an expiry run - is told of every document the expiry run removes"),
  "C20": ("life", "LifeTrace treats any panic, hang (4 s watchdog per call), process crash, leaked feed goroutine or unclosed done channel in the executed lifecycle behaviours as a violation; "
          "the concurrent families (gate scheduler) additionally replay close/delete against in-flight writers and feeds"),
  "C03": ("conc", "RosmarConc (clients, feed, runner at critical-section granularity) is model-checked by TLC for the intended design (NoLostUpdate, AtMostOneReplaces, UpdatesApplied); "
@@ -82,7 +83,7 @@ m = {
              {"name": "tlc-hlc", "path": "/verif/spec", "serves_properties": ["C04"], "kind_free_text": "RosmarHLC/HLCTrace + vh hlc (injected clock)"},
              {"name": "tlc-crash", "path": "/verif/spec", "serves_properties": ["C10"], "kind_free_text": "SeqTrace!Reopen + vh crashchild/crashcheck (SIGKILL at hook sites)"},
              {"name": "tlc-shut", "path": "/verif/spec", "serves_properties": ["C13", "C20"], "kind_free_text": "RosmarShutdown lock-level model, ShutTrace + vh shut (one process per schedule)"},
-             {"name": "tlc-exp", "path": "/verif/spec", "serves_properties": ["C14"],
+             {"name": "tlc-exp", "path": "/verif/spec", "serves_properties": ["C11", "C14", "C16"],
               "kind_free_text": "RosmarExpiryOps/RosmarExpiry/ExpTrace TLA+ modules + vh exp (real-time timeline)"}],
  "checks": checks,
  "notes": "All checks share family pipelines whose results are cached under /verif/.cache keyed by the hash of /repo's sources, the machinery, the seed and the tier.",
